@@ -73,6 +73,54 @@ def _class_not_final(r):
     return ok
 
 
+def _closure_is_not_table_test(crate, r):
+    """the closure of `children.any(|c| !table.contains_key(&c.id))` — "some child is not final yet": exactly the negated table test"""
+    cls = [x for x in role_walk(r) if isinstance(x, tuple) and x[0] == "agg" and isinstance(x[1], str) and x[1] in crate.bodies] if r is not None else []
+    if len(cls) != 1:
+        return False
+    cb = crate.bodies[cls[0][1]]
+    rr = strip_role(cb.role_of_local(0))
+    if not (isinstance(rr, tuple) and rr[0] == "un" and rr[1] == "Not"):
+        return False
+    inner = strip_role(rr[2])
+    return isinstance(inner, tuple) and inner[0] == "call" and inner[1] == "contains_key" and sum(1 for c in cb.calls if c.callee and c.callee.name in ("contains_key", "contains", "get")) == 1
+
+
+def _flag_is_class_final(b, r, edge=None):
+    """a boolean flag (phi of constants: `matches!(eg.lookup(&x), Some(i) if map.contains_key(&i.id))`) that is true exactly
+    behind `lookup(..) is Some` and `map.contains_key(..)`, with nothing else deciding it"""
+    r = strip_role(r) if r is not None else None
+    if not (isinstance(r, tuple) and r[0] == "phi" and all(isinstance(strip_role(x), tuple) and strip_role(x)[0] == "const" for x in r[1])):
+        return False
+    ok = False
+    # the flag's own local: the discriminant of the switch the edge leaves (followed through plain copies)
+    flag = set()
+    if edge is not None and isinstance(edge, tuple) and len(edge) > 1 and isinstance(edge[1], int):
+        pl = mir.op_place(b.blocks[edge[1]]["term"].get("discr")) if b.blocks[edge[1]]["term"].get("k") == "switch" else None
+        if pl is not None and not pl["p"]:
+            flag = {pl["l"]}
+            for _ in range(4):
+                for bi, si, st in b.statements():
+                    if st["k"] == "assign" and not st["lhs"]["p"] and st["lhs"]["l"] in flag and st["rv"]["k"] == "use":
+                        p2 = mir.op_place(st["rv"]["op"])
+                        if p2 is not None and not p2["p"]:
+                            flag.add(p2["l"])
+    if not flag:
+        return False
+    for bi, si, st in b.statements():
+        if st["k"] == "assign" and not st["lhs"]["p"] and not b.blocks[bi]["cleanup"] and C.const_bool(st["rv"]) is True and st["lhs"]["l"] in flag:
+            conds = C.conditions_at(b, bi, expand=False)
+            tests = [(c_[0], role_str(c_[1])[:60]) for e_, c_ in conds if len(c_) > 1 and not (isinstance(c_[1], tuple) and c_[1][0] in ("const",))]
+            has_ck = any(k_ == "true" and t_.startswith("contains_key(") for k_, t_ in tests)
+            has_lk = any("lookup(" in t_ for k_, t_ in tests)
+            other = [(k_, t_) for k_, t_ in tests if not (t_.startswith("contains_key(") or "lookup(" in t_)]
+            # (conditions that dominate the whole propagation step are not part of the flag: only those inside the step count)
+            if not (has_ck and has_lk and not [x for x in other if x[1].startswith("contains") or x[1].startswith("is_")]):
+                return False
+            ok = True
+    return ok
+
+
 @rule("X0", doc="candidate generation is exhaustive")
 def x0(ctx):
     crate = ctx.lib()
@@ -124,6 +172,7 @@ def x0(ctx):
         conds = C.conditions_at(b, c.bb)
         guards = []
         cond_role = {}
+        cond_edge = {}
         for e, cond in conds:
             r = cond[1] if len(cond) > 1 else None
             if cond[0] in ("true", "false") and isinstance(r, tuple) and r[0] == "const":
@@ -132,6 +181,7 @@ def x0(ctx):
                 continue
             guards.append((cond[0], role_str(cond[1])[:120] if len(cond) > 1 else ""))
             cond_role[guards[-1][1]] = cond[1] if len(cond) > 1 else None
+            cond_edge[guards[-1][1]] = e
         ctx.info("push #%d guarded by %s" % (i, guards))
         allowed = 0
         for kind, txt in guards:
@@ -147,6 +197,10 @@ def x0(ctx):
                 allowed += 1
             elif kind == "false" and txt.startswith("is_some_and(lookup(") and _closure_is_table_test(crate, cond_role.get(txt)):
                 allowed += 1
+            elif kind == "false" and txt.startswith("any(") and "applied_id_occurrences(" in txt and _closure_is_not_table_test(crate, cond_role.get(txt)):
+                allowed += 1        # `children.any(|c| !table.contains_key(c))` false  ==  `children.all(|c| table.contains_key(c))` true
+            elif kind == "false" and _flag_is_class_final(b, cond_role.get(txt), cond_edge.get(txt)):
+                allowed += 1        # `matches!(lookup(x), Some(i) if table.contains_key(i))` false  ==  the class is not final yet
             else:
                 ctx.bad("push-extra-guard:%d:%s" % (i, txt[:40]), "heap push #%d in Extractor::new is additionally guarded by %s %s — candidates can be dropped" % (i, kind, txt), where_of(b, c.bb))
         # the leaf test may sit in a filter of the loop's iterator instead of an `if`
@@ -287,6 +341,12 @@ def x3(ctx):
                         cb = crate.bodies.get(x[1])
                         if cb and any(cc.callee and cc.callee.name == "contains_key" for cc in cb.calls):
                             okall = True
+        for e, cond in conds:
+            # `children.any(|c| !map.contains_key(&c.id))` false — the same test, negated
+            if cond[0] == "false" and len(cond) > 1:
+                r = strip_role(cond[1])
+                if isinstance(r, tuple) and r[0] == "call" and r[1] == "any" and role_mentions_call(r, "applied_id_occurrences") and _closure_is_not_table_test(crate, r):
+                    okall = True
         ctx.check(okall, "all-children-final", "a parent's cost is computed only under all(children, |i| map.contains_key(i.id))",
                   "Extractor::new computes the cost of a parent e-node without all of its children having final entries (the child-cost closure indexes a missing entry or uses a non-final cost)", where_of(b, c.bb))
         # child cost closure reads the cost component of the table entry
